@@ -3,7 +3,7 @@
    functions errRetryableOnNewConn (pool, telegram) are regenerated from the source into
    Gen/RpcClass.v on every run and used by the model (retryable, retryable_tg). *)
 From Coq Require Import ZArith List Bool.
-From TD Require Import Gen.RpcClass Model.Rpc Proof.Rpc.
+From TD Require Import Gen.RpcClass Model.Rpc Proof.Rpc Proof.RpcClass.
 Import ListNotations.
 Open Scope Z_scope.
 
@@ -37,6 +37,12 @@ Theorem C26_class_functions : forall r,
   retryable r = is_engine_closed r /\ retryable_tg r = is_engine_closed r.
 Proof. exact c26_functions. Qed.
 Print Assumptions C26_class_functions.
+
+Theorem C26_acked_not_retryable :
+  retryable RClosedAcked = false /\ retryable_tg RClosedAcked = false /\
+  retryable RCtx = false /\ retryable_tg RCtx = false.
+Proof. exact c26_acked_not_retryable. Qed.
+Print Assumptions C26_acked_not_retryable.
 
 (* Drop: a returned call has issued exactly one drop request if it returned the context
    error and its request had been sent (the code's variable "sent"), none otherwise. *)
